@@ -10,8 +10,8 @@ closed-form antiderivatives with mpmath at 40 digits):
   * exactness on the polynomial class, with the conditioning-scaled rounding allowance
         C_P * (deg + nodes + 4) * eps * |b-a| * sum_i |c_i| X^i,   X = max(|a|,|b|):
     trapz: degree <= 1, every n >= 1;  quad5: degree <= 19 (the table is the 10-point rule; the property asks >= 9);
-    romberg with k levels: degree <= 2k-1 when eps = 0, degree <= min(2k-1, 5) for every eps (an early exit
-    happens at level >= 2, which is exact to degree 5).
+    romberg with k levels: degree <= 2k-1 when eps = 0 (no early exit: k levels computed), degree <= min(2k-1, 5) for
+    every eps > 0 (an early exit happens at a level s >= 2 and is exact to degree 2s+1 only: C07V.romberg_exact_at_stop_level).
   * trapezoid error bound  |trapz - I| <= |b-a|^3 max|f''| / (12 n^2) + rounding allowance, for polynomials
     (max|p''| <= sum i(i-1)|c_i| X^(i-2)) and the 19 smooth catalogue integrands (analytic bounds of max|f''|).
   * linearity / sign / degenerate interval: I(a,a) = 0 exactly; I(b,a) vs I(a,b) and I(f+g), I(c f) against the exact
@@ -915,3 +915,54 @@ PROOF_MODULES = PROOF_MODULES + ['Compute.Lemmas.SrcLoops']
 PROOF_MODULES = PROOF_MODULES + [m for m in ['Compute.Lemmas.Rounding5', 'Compute.Props.Rounding5'] if m not in PROOF_MODULES]
 REQUIRED_THEOREMS = REQUIRED_THEOREMS + ['Cv.Rounding5.trapz_error', 'Cv.Rounding5.trapz_error_rel', 'Cv.Rounding5.trapz_node_error', 'Cv.Rounding5.trapezoid_error', 'Cv.Rounding5.trapezoidDx_error', 'Cv.Rounding5.quad5_error', 'Cv.Rounding5.quad5_error_rel', 'Cv.Rounding5.romberg00_error', 'Cv.Rounding5.rombergCol0Next_error', 'Cv.Rounding5.trapz_pert', 'Cv.Rounding5.quad5_pert', 'Cv.Rounding5.f64_trapz_note']
 NOT_PROVED = [("rounding of the integrand and the discretisation ('up to rounding' relative to the exact integral) is decided by the oracle; the accumulation error of trapz / trapezoid / quad5 / Romberg r[0][0] and each first-column step IS proved in the standard model (Props/Rounding5): computed = sum w_i f(x_i)(1+th_i) over the rule's computed nodes, |th_i| <= gamma_k with k = max(n+4,8) / (n-1)+5 / L+7 (=12) / 5 / max(3,2^(n-1)+1)+1, nodes within gamma_6(|a|+k|h|), and with a j-fold relatively accurate integrand gamma_(k+j) against sum w_i F(x_i); trusted link: IEEE binary64 obeys fl(a op b) = (a op b)(1+d), |d| <= 2^-53, barring overflow/underflow" if str(x).startswith('floating-point rounding (') else x) for x in NOT_PROVED]
+
+# --- review pass (review-b C07: A1, B1, B2, B3, C1-C7): new theorem module and ONE consistent set of claim texts
+# (the texts below REPLACE the NOT_PROVED / TRUSTED / ASSUMPTIONS / RULE accumulated by the blocks above).
+PROOF_MODULES = PROOF_MODULES + [m for m in ['Compute.Props.C07Review'] if m not in PROOF_MODULES]
+REQUIRED_THEOREMS = REQUIRED_THEOREMS + [
+    'Cv.C07V.romberg_stop_level', 'Cv.C07V.romberg_exact_at_stop_level', 'Cv.C07V.romberg_exact_of_no_stop',
+    'Cv.C07V.romberg_early_exit_witness', 'Cv.C07V.romberg_swap_any', 'Cv.C07V.romberg_self_any',
+    'Cv.C07V.romberg_not_additive_witness', 'Cv.C07V.panel_integral', 'Cv.C07V.panelSum_eq_integrals',
+    'Cv.C07V.panelSum_eq_integral_pwl', 'Cv.C07V.trapezoid_eq_integral_pwl', 'Cv.C07V.trapz_zero_panels',
+    'Cv.C07V.trapezoid_default', 'Cv.C07V.trapezoid_dx_eq', 'Cv.C07.trapezoid_panics']
+RULE = ("monomials of degree 0..19 and random polynomials x random intervals (a<b, a>b, a=b, endpoints up to 1e3, exact special "
+        "values) x {trapz n=1..4096 incl. every 2^k-1, 2^k, 2^k+1; quad5; romberg k=1..20 levels with eps in {0, 5e-324, 1e-300, "
+        "1e-18..1e-3, 0.5}, each eps>0 run accompanied by the eps=0 runs with 1..k levels (the diagonal)}; 19 smooth integrands with "
+        "closed-form antiderivative; sampled arrays of 0..1e4 points (x / dx / default, lengths 1023..1026, 2047..2050); "
+        "non-trivial = distinct (op, integrand class, size bucket, regime)")
+NOT_PROVED = [
+    "Romberg exactness to degree 2k-1 holds, and is proved (C07R.romberg_exact, romberg_exact_horner; C07V.romberg_exact_of_no_stop), "
+    "ONLY WHEN NO EARLY EXIT HAPPENS, in particular at eps = 0; k levels means k levels computed. For eps > 0 the run may stop at "
+    "the first level 2 <= s < k whose consecutive estimates agree, the value returned is R[s][s] (C07V.romberg_stop_level) and the "
+    "guaranteed degree is 2s+1 >= 5 (C07V.romberg_exact_at_stop_level); the clause that holds after an early exit is the tolerance "
+    "clause. Kernel-checked witness (C07V.romberg_early_exit_witness, also run through the Rust code): romberg(1 + x^6/100, 0, 1, "
+    "eps = 1e-3, 5 levels) = 7691/7680, the integral is 701/700, error 3.7e-6 < eps, degree 6 <= 2*5-1. The oracle applies the same "
+    "narrowing: degree <= 2k-1 at eps = 0, degree <= min(2k-1, 5) for eps > 0, plus the exactly decided stop rule",
+    "romberg is additive / homogeneous in the integrand at eps = 0 only (C07R.romberg_add, romberg_smul; the tableau R always is); at "
+    "eps > 0 additivity is FALSE (C07V.romberg_not_additive_witness: on [0,1], eps = 1e-3, 5 levels, romberg(1 + x^6/100) + "
+    "romberg(x^6) = 7691/7680 + 1/7 but romberg of the sum = 801/700). Sign change under swapping the limits and a = b -> 0 are "
+    "proved for every eps (C07V.romberg_swap_any, romberg_self_any)",
+    "the clause 'Romberg error of the order of its tolerance for smooth integrands' has no theorem. The oracle decides (a) exactly, on "
+    "every eps > 0 line, that the value returned is the implementation's own diagonal entry at the first level where consecutive "
+    "estimates agree in sign and magnitude, and (b) |error| <= 4 eps max(1,|I|) + rounding ONLY on the ':narrow' cases (interval "
+    "width <= 1/max(1,|k|), about half of the smooth-catalogue lines); on ':wide' cases only (a) is checked, because false "
+    "convergence by aliasing is inherent to the method there",
+    "floating-point rounding: relative to the exact integral it is decided by the oracle with a conditioning-scaled allowance; "
+    "Props/Rounding5 bounds, in the standard model, the accumulation error of trapz, trapezoid, quad5, Romberg r[0][0] and ONE "
+    "first-column step against the rule sum at the computed nodes - not the Richardson sweep, and not linked to the integral",
+    "trapz_affine, romberg_exact*, romberg_simpson_cubic, romberg_boole_quintic conclude the closed-form antiderivative difference, not "
+    "an interval integral; statements with a genuine integral: trapz_error_bound, C07R.R_exact_real (tableau entry), "
+    "C07Q.quad5_poly_error*, C07V.panel_integral / panelSum_eq_integral_pwl",
+    "n = 0 panels is outside the quantifier: the code returns +-inf or NaN (division by zero), the algebraic trapz theorems hold there "
+    "through x/0 = 0 only (C07V.trapz_zero_panels says so); the oracle skips n = 0, the correspondence compares it",
+    "romberg has no source tie (hand-modelled: column 0 is interleaved with the Richardson sweep, same values for a pure integrand); "
+    "Option routing and index maps of trapezoid are tied at run time only",
+]
+TRUSTED = ["integrand catalogue implemented twice (Rust executor, Lean model) with the same operation order; compared bit for bit",
+           "Iterator::sum::<f64>() folds from -0.0; f64::min in the stop test is NaN-ignoring (fminG)"]
+ASSUMPTIONS = [
+    "romberg level budgets 1..31 are modelled (theorems say 'every k <= 31', the property needs 2..20). `none` for nmax > 31 means "
+    "NOT MODELLED, not a panic: the Rust code does not panic at 32 (u32 overflow of 2*k starts at 33, after 2^31 evaluations); the "
+    "executor refuses such lines, so they are never compared. `none` for nmax = 0 IS the panic (index into an empty tableau)",
+    "closures are pure functions of x (the model interleaves column 0 with the sweep)",
+]
